@@ -1849,6 +1849,15 @@ def units(tier, seed):
         nres=1, nets="chain", cons=("loc", "same12"), nowrap=True), "place",
         wit=RR, split=5)
 
+    # an anneal that moves vertices onto a chip with a resource exception
+    # (the placer's working copy of the machine must not share the caller's
+    # per-chip dictionaries); several generator seeds
+    for k in range(3):
+        args("sa.place effort 0.1 stopped, exception chips, seed+%d" % k,
+             dict(f="place", placer="sa", effort=0.1, seed=seed + k,
+                  dims=(2, 2), nv=3, nres=2, exc=(1, 1), nets="chain",
+                  cons=()), "place", wit=RR, split=5)
+
     # ---------------- (a) allocate -----------------------------------
     def alloc(name, wit=RR, split=5, **kw):
         args("allocate " + name, dict(f="allocate", **kw), "allocate",
